@@ -128,3 +128,32 @@ PROPS["C08"] = dict(
     require_counters={"any": {"ledger_allocations": 100000}},
     assumptions=_codec_assume + ["the harness-as-application frees exactly what the API says it owns (decoded source symbols, NULL-slot repair symbols)"],
 )
+
+PROPS["C05"] = dict(
+    jobs=BOTH,
+    rule="one case = one (k, r, N1, seed): the parity-check equations of an encoder session and of a decoder session (public sparse-matrix structure right after of_set_fec_parameters) "
+         "and the equations revealed black-box by encoding unit-vector payloads are compared row by row with the RFC 5170 construction re-implemented in rfc5170.c; "
+         "each configuration is built right away / after 1-5 unrelated sessions (other LDPC parameters, RS, 2D, ML decoding, application srand()) / with another construction between create and set_fec_parameters; "
+         "a sample is rebuilt in a freshly exec'ed process and compared. all cases non-trivial; distinct by (k,r,N1,seed,history mode)",
+    budget_s={"quick": 900, "thorough": 7200},
+    require_counters={"any": {"configs_observed_black_box": 500, "configs_observed_white_box": 1000, "configs_compared_with_fresh_process": 5}},
+    assumptions=["the RFC 5170 oracle is a transcription of the RFC pseudo-code; for k=1 the RFC's degree-1 loop cannot terminate and is skipped by library and oracle alike",
+                 "white-box observation relies on the public of_mod2sparse structure and the column layout (repair columns first)"],
+)
+PROPS["C15"] = dict(
+    jobs=BOTH,
+    rule="one case = one (k, r, N1, seed), even N1 plus odd-N1 controls: OF_CRTL_LDPC_STAIRCASE_IS_LAST_SYMBOL_NULL of an encoder and of a decoder session; when true, the last repair symbol of the unit-vector block "
+         "(which decides all source data by linearity) and of 3 random blocks must be all zeros. non-trivial = the claim is true",
+    budget_s={"quick": 900, "thorough": 7200},
+    require_counters={"any": {"true_claims_observed": 200, "false_claims_observed": 50, "random_blocks_checked_under_true_claim": 500}},
+    assumptions=["linearity: a zero last repair symbol for the k unit-vector sources implies zero for every source block"],
+)
+PROPS["C06"] = dict(
+    jobs=BOTH,
+    rule="one case = one encoder session: RS (codec 1, codec 2 m=8, m=4): every k in 1..2^m-2 with n=2^m-1 (so every generator row of every (m,k)) plus sampled shorter n, unit-vector and random payloads, NULL and application output slots, "
+         "compared with the reference code rsref.c; codec 1 vs codec 2 (m=8) byte for byte; LDPC-Staircase: every equation of the RFC 5170 matrix sums to zero over the emitted codeword; sources are PROT_READ / checksummed. all cases non-trivial",
+    exhaustive_subspaces={"quick": ["every (m,k) with n=2^m-1, every repair ESI"], "thorough": ["every (m,k) with n=2^m-1, every repair ESI"]},
+    budget_s={"quick": 900, "thorough": 7200},
+    require_counters={"any": {"repair_symbols_compared_with_reference": 30000, "ldpc_equations_checked": 1000, "codec1_codec2_codewords_compared": 254, "null_output_slots": 100}},
+    assumptions=["LDPC: the staircase makes the solution of the parity-check equations unique, so 'all equations sum to zero' determines the repair symbols"],
+)
